@@ -23,6 +23,7 @@ import (
 	"github.com/database64128/shadowsocks-go/conn"
 	"github.com/database64128/shadowsocks-go/netio"
 	"github.com/database64128/shadowsocks-go/service"
+	"github.com/database64128/shadowsocks-go/verifhook"
 	"github.com/database64128/shadowsocks-go/zerocopy"
 	"go.uber.org/zap"
 	"go.uber.org/zap/zapcore"
@@ -97,7 +98,7 @@ func Load(cfgJSON []byte, level zapcore.Level) (*service.Manager, *observer.Obse
 	return m, logs, err
 }
 
-// ClockPoisoned is set once a configuration that makes the service call signal.Notify (credential stores,
+// ClockPoisoned is set (real-clock flavours only; the fake-clock flavour skips the registration through a hook) once a configuration that makes the service call signal.Notify (credential stores,
 // TLS certificates: reload on SIGUSR1) has been started in this process. os/signal parks an M in a blocking
 // wait for the rest of the process lifetime; the runtime then never considers the process idle, so the fake
 // clock can no longer be advanced (vtime.Advance would hang). Parts that need Advance must not start such
@@ -106,7 +107,11 @@ var ClockPoisoned atomic.Bool
 
 // Start loads and runs the configuration.
 func Start(cfgJSON []byte) (*Instance, error) {
-	if bytes.Contains(cfgJSON, []byte("uPSKStorePath")) || bytes.Contains(cfgJSON, []byte("\"certs\"")) {
+	if vtime.Virtual {
+		// under the fake clock the SIGUSR1 reload handler is not registered (verif hook): os/signal would park a
+		// thread for good and the fake clock could never advance again
+		verifhook.SetSkip("service.reloadNotifier.signal", true)
+	} else if bytes.Contains(cfgJSON, []byte("uPSKStorePath")) || bytes.Contains(cfgJSON, []byte("\"certs\"")) {
 		ClockPoisoned.Store(true)
 	}
 	m, logs, err := Load(cfgJSON, zapcore.InfoLevel)
